@@ -98,7 +98,7 @@ def main() -> int:
     if only:
         dirs = [d for d in dirs if os.path.basename(d) in only]
     metas = {}
-    with ThreadPoolExecutor(max_workers=8) as ex:
+    with ThreadPoolExecutor(max_workers=14) as ex:
         for name, meta, err in ex.map(lambda d: one(d, full, CLAIMED), dirs):
             if meta is None:
                 print(f"{name}: ERROR {err}")
